@@ -439,6 +439,96 @@ theorem hinv_step {H : Type} (el : Bytes → Option Nat) (hf : HashFn Bytes H) (
     rw [hstep]
     exact ⟨⟨df, hcur⟩, ⟨b0, df0, hs0, ha0, hunit, hclean⟩⟩
 
+/-! ### units that only remove leaves, and the rewind that undoes them -/
+
+namespace RefSt
+
+theorem proto_append (r : RefSt) (a b : List HOp) :
+    Proto r (a ++ b) ↔ Proto r a ∧ Proto (a.foldl step r) b := by
+  induction a generalizing r with
+  | nil => simp [Proto]
+  | cons op ops ih => simp only [List.cons_append, Proto, List.foldl_cons, ih, and_assoc]
+
+/-- a run of `prune`s: always allowed; it leaves the leaf history, `G` and `C` alone and removes
+the pruned positions from the unspent set -/
+theorem prunes (r : RefSt) (ps : List Nat) :
+    Proto r (ps.map HOp.prune) ∧
+    ((ps.map HOp.prune).foldl step r).cur.es = r.cur.es ∧
+    ((ps.map HOp.prune).foldl step r).G = r.G ∧ ((ps.map HOp.prune).foldl step r).C = r.C ∧
+    ((ps.map HOp.prune).foldl step r).saved = r.saved ∧
+    ∀ q, q ∈ ((ps.map HOp.prune).foldl step r).cur.U ↔ (q ∈ r.cur.U ∧ q ∉ ps) := by
+  induction ps generalizing r with
+  | nil => simp [Proto]
+  | cons p ps ih =>
+    obtain ⟨h1, h2, h3, h4, h5, h6⟩ := ih (r.step (.prune p))
+    simp only [List.map_cons, List.foldl_cons, Proto]
+    refine ⟨⟨trivial, h1⟩, h2, h3, h4, h5, ?_⟩
+    intro q
+    rw [h6 q]
+    simp only [step, List.mem_filter, List.mem_cons, bne_iff_ne, ne_eq, not_or]
+    constructor
+    · rintro ⟨⟨a, b⟩, c⟩; exact ⟨a, b, c⟩
+    · rintro ⟨a, b, c⟩; exact ⟨⟨a, b⟩, c⟩
+
+/-- **A unit of work that only removes leaves, followed by the rewind that undoes it, conforms to
+the protocol.**  From any state of the reference (with `C ≤` the current leaf count – an
+invariant of conforming histories), the history
+
+  `prune p₁, …, prune pₖ, sync, rewind N [p₁+1, …, pₖ+1]`   (`N` = the current leaf count)
+
+is allowed whenever the `pᵢ` are leaf positions of the MMR that no compaction has removed: the
+rewind position is the *current* size (the unit appended nothing), and `rewind_rm_pos` is exactly
+what the unit removed.  Afterwards the reference holds the same leaves, and its unspent set is
+the one from before the unit if the `pᵢ` were unspent. -/
+theorem removal_unit_then_rewind (r : RefSt) (hC : r.C ≤ r.cur.es.length) (ps : List Nat)
+    (hps : ∀ p ∈ ps, isLeaf p = true ∧ p + 1 ≤ mmr r.cur.es.length ∧ p ∉ r.G) :
+    let ops := ps.map HOp.prune ++ [HOp.sync, HOp.rewind r.cur.es.length (ps.map (· + 1))]
+    Proto r ops ∧ (ops.foldl step r).cur.es = r.cur.es ∧
+    ((∀ p ∈ ps, p ∈ r.cur.U) → (∀ q ∈ r.cur.U, q < mmr r.cur.es.length) →
+      ∀ q, q ∈ (ops.foldl step r).cur.U ↔ q ∈ r.cur.U) := by
+  intro ops
+  obtain ⟨h1, h2, h3, h4, _, h6⟩ := prunes r ps
+  generalize hr' : (ps.map HOp.prune).foldl step r = r' at *
+  have hfold : ops.foldl step r = (r'.step .sync).step (.rewind r.cur.es.length (ps.map (· + 1))) := by
+    show (ps.map HOp.prune ++ _).foldl step r = _
+    rw [List.foldl_append, hr']; rfl
+  refine ⟨?_, ?_, ?_⟩
+  · show Proto r (ps.map HOp.prune ++ _)
+    rw [proto_append, hr']
+    refine ⟨h1, trivial, ⟨rfl, ?_, ?_, ?_⟩, trivial⟩
+    · show r'.C ≤ _; rw [h4]; exact hC
+    · show _ ≤ r'.cur.es.length; rw [h2]; exact Nat.le_refl _
+    · intro x hx
+      obtain ⟨p, hp, rfl⟩ := List.mem_map.1 hx
+      obtain ⟨a, b, c⟩ := hps p hp
+      refine ⟨by omega, b, by rw [Nat.add_sub_cancel]; exact a, ?_⟩
+      show p + 1 - 1 ∉ r'.G
+      rw [Nat.add_sub_cancel, h3]; exact c
+  · rw [hfold]
+    show r'.cur.es.take r.cur.es.length = _
+    rw [h2, List.take_length]
+  · intro hin hlt q
+    rw [hfold]
+    show q ∈ r'.cur.U.filter (· < mmr r.cur.es.length) ++ (ps.map (· + 1)).map (· - 1) ↔ _
+    rw [List.mem_append, List.mem_filter, h6 q, List.map_map]
+    have hmap : q ∈ ps.map ((· - 1) ∘ (· + 1)) ↔ q ∈ ps := by
+      rw [List.mem_map]
+      constructor
+      · rintro ⟨p, hp, rfl⟩; simpa using hp
+      · intro h; exact ⟨q, h, by simp⟩
+    rw [hmap]
+    simp only [decide_eq_true_eq]
+    constructor
+    · rintro (⟨⟨a, _⟩, _⟩ | h)
+      · exact a
+      · exact hin q h
+    · intro h
+      by_cases hq : q ∈ ps
+      · exact Or.inr hq
+      · exact Or.inl ⟨⟨h, hq⟩, hlt q h⟩
+
+end RefSt
+
 /-- the empty store agrees with the empty reference -/
 theorem synced_empty {H : Type} (ref : Nat → H) (dref : Nat → Bytes) :
     Synced ({} : Backend H) 0 ref dref {} := by
